@@ -21,7 +21,65 @@ import (
 // AddDependency returned, the rerunner is neither stopped nor failing: a second run has to
 // follow.
 
+// The second narrow window, "while it is registering the dependency": the run registers its
+// dependency (AddDependency, directly or inside a cached child) while another goroutine
+// invalidates that very resource. Whichever comes first, the run depends on an invalidated
+// resource: a second run has to follow (the later runs do not touch the resource again).
+func registerAttempt(c ArmCase, late, skew int) bool {
+	res := reactive.NewResource()
+	var runs, ready, spinning int32
+	second := make(chan struct{})
+	fired := make(chan struct{})
+	go func() {
+		defer close(fired)
+		atomic.StoreInt32(&spinning, 1)
+		for n := 1; atomic.LoadInt32(&ready) == 0; n++ {
+			if n%(1<<20) == 0 {
+				time.Sleep(time.Microsecond)
+			}
+		}
+		for i := 0; i < skew; i++ {
+			armSink1++
+		}
+		res.Invalidate()
+	}()
+	for atomic.LoadInt32(&spinning) == 0 {
+		runtime.Gosched()
+	}
+	rr := reactive.NewRerunner(context.Background(), func(ctx context.Context) (interface{}, error) {
+		switch atomic.AddInt32(&runs, 1) {
+		case 1:
+			atomic.StoreInt32(&ready, 1)
+			for i := 0; i < late; i++ {
+				armSink2++
+			}
+			if c.ViaCache {
+				if _, err := reactive.Cache(ctx, "k", func(ctx context.Context) (interface{}, error) {
+					reactive.AddDependency(ctx, res, nil)
+					return nil, nil
+				}); err != nil {
+					return nil, err
+				}
+			} else {
+				reactive.AddDependency(ctx, res, nil)
+			}
+		case 2:
+			close(second)
+		}
+		return nil, nil
+	}, 0, c.Spawn)
+	defer rr.Stop()
+	<-fired
+	select {
+	case <-second:
+		return true
+	case <-time.After(3 * time.Second):
+		return false
+	}
+}
+
 type ArmCase struct {
+	Register bool `json:"register,omitempty"` // the registration window instead of the arming window
 	Strobe   bool `json:"strobe"`
 	Spawn    bool `json:"spawn"`
 	ViaCache bool `json:"via_cache"`
@@ -101,14 +159,26 @@ func checkArm(t interface{ Fatalf(string, ...interface{}) }, test string, c ArmC
 		if c.SkewMax > 0 {
 			skew = (a * 31) % c.SkewMax
 		}
+		if c.Register {
+			if !registerAttempt(c, late, skew) {
+				msg := fmt.Sprintf("lost invalidation: the resource was invalidated while the only run was registering it as a dependency (attempt %d: the run spun %d times before AddDependency, the invalidator %d times before Invalidate), the rerunner was not stopped and did not fail, yet no second run happened within 3s", a, late, skew)
+				p := rec.Violate(test, map[string]interface{}{"armrace": c}, msg)
+				t.Fatalf("%s (replay %s)", msg, p)
+			}
+			continue
+		}
 		if !armAttempt(c, late, skew) {
 			msg := fmt.Sprintf("lost invalidation: the resource was notified after AddDependency had returned in the only run (attempt %d: the run spun %d times before returning, the notifier %d times), the rerunner was not stopped and did not fail, yet no second run happened within 3s", a, late, skew)
 			p := rec.Violate(test, map[string]interface{}{"armrace": c}, msg)
 			t.Fatalf("%s (replay %s)", msg, p)
 		}
 	}
-	rec.Case(fmt.Sprintf("arm%+v", c), true, "arm-race", fmt.Sprintf("strobe=%v", c.Strobe), fmt.Sprintf("via-cache=%v", c.ViaCache))
-	rec.Sample("arm-race", c)
+	lbl := "arm-race"
+	if c.Register {
+		lbl = "register-race"
+	}
+	rec.Case(fmt.Sprintf("arm%+v", c), true, lbl, fmt.Sprintf("strobe=%v", c.Strobe), fmt.Sprintf("via-cache=%v", c.ViaCache))
+	rec.Sample(lbl, c)
 }
 
 func TestArmRace(t *testing.T) {
@@ -117,5 +187,14 @@ func TestArmRace(t *testing.T) {
 			LateMax: rapid.SampledFrom([]int{1000, 3000, 6000, 6000, 12000}).Draw(t, "latemax"), SkewMax: rapid.SampledFrom([]int{0, 0, 200, 1000}).Draw(t, "skewmax"),
 			Attempts: 40, Step: rapid.SampledFrom([]int{7, 97, 211, 1009}).Draw(t, "step")}
 		checkArm(t, "TestArmRace", c)
+	})
+}
+
+func TestRegisterRace(t *testing.T) {
+	rapid.Check(t, func(t *rapid.T) {
+		c := ArmCase{Register: true, Spawn: rapid.Bool().Draw(t, "spawn"), ViaCache: rapid.IntRange(0, 3).Draw(t, "viacache") == 0,
+			LateMax: rapid.SampledFrom([]int{1000, 3000, 6000, 6000, 12000}).Draw(t, "latemax"), SkewMax: rapid.SampledFrom([]int{0, 0, 200, 1000}).Draw(t, "skewmax"),
+			Attempts: 40, Step: rapid.SampledFrom([]int{7, 97, 211, 1009}).Draw(t, "step")}
+		checkArm(t, "TestRegisterRace", c)
 	})
 }
